@@ -62,25 +62,55 @@ def build_universe(case, classes, tier):
     gens = []
     for col in ("List", "Set"):
         for b in base6:
-            gens.append(add(N(col, N(b)), kind="generic", col=col))
-    for a, b in [("Int", "Str"), ("Int", "Int"), ("Float", "Int"), (user[0], "Int")]:
-        gens.append(add(N("Dict", N(a), N(b)), kind="generic", col="Dict"))
-        gens.append(add({"tuple": [N(a), N(b)]}, kind="generic", col="Tuple"))
+            idx["%s[%s]" % (col, b)] = add(N(col, N(b)), kind="generic", col=col, args=(idx[b],), text="%s[%s]" % (col, b))
+            gens.append(idx["%s[%s]" % (col, b)])
+    # generics with several arguments: every position must count (a mismatch in the first, the middle, the last one)
+    for a, b in [("Int", "Str"), ("Int", "Int"), ("Float", "Int"), (user[0], "Int"), ("Str", "Int"), ("Str", "Str"),
+                 ("Int", user[0])]:
+        gens.append(add(N("Dict", N(a), N(b)), kind="generic", col="Dict", args=(idx[a], idx[b]), text="Dict[%s, %s]" % (a, b)))
+        gens.append(add({"tuple": [N(a), N(b)]}, kind="generic", col="Tuple", args=(idx[a], idx[b]), text="(%s, %s)" % (a, b)))
+    for a, b, c in [("Int", "Int", "Int"), ("Str", "Int", "Int"), ("Int", "Str", "Int"), ("Int", "Int", "Str"),
+                    (user[0], "Int", "Int")]:
+        gens.append(add({"tuple": [N(a), N(b), N(c)]}, kind="generic", col="Tuple", args=(idx[a], idx[b], idx[c]),
+                        text="(%s, %s, %s)" % (a, b, c)))
     # depth 2
-    gens.append(add(N("List", N("List", N("Int"))), kind="generic", col="List"))
-    gens.append(add(N("List", N("List", N("Float"))), kind="generic", col="List"))
-    gens.append(add(N("Set", N("List", N(user[0]))), kind="generic", col="Set"))
-    gens.append(add({"tuple": [N("List", N("Int")), N("Str")]}, kind="generic", col="Tuple"))
+    gens.append(add(N("List", N("List", N("Int"))), kind="generic", col="List", args=(idx["List[Int]"],)))
+    gens.append(add(N("List", N("List", N("Float"))), kind="generic", col="List", args=(idx["List[Float]"],)))
+    gens.append(add(N("List", N("List", N("Str"))), kind="generic", col="List", args=(idx["List[Str]"],)))
+    gens.append(add(N("Set", N("List", N(user[0]))), kind="generic", col="Set", args=(idx["List[%s]" % user[0]],)))
+    gens.append(add({"tuple": [N("List", N("Int")), N("Str")]}, kind="generic", col="Tuple", args=(idx["List[Int]"], idx["Str"])))
+    gens.append(add({"tuple": [N("List", N("Str")), N("Str")]}, kind="generic", col="Tuple", args=(idx["List[Str]"], idx["Str"])))
+    gens.append(add(N("Dict", N("List", N("Int")), N("Int")), kind="generic", col="Dict", args=(idx["List[Int]"], idx["Int"])))
+    gens.append(add(N("Dict", N("List", N("Str")), N("Int")), kind="generic", col="Dict", args=(idx["List[Str]"], idx["Int"])))
     # functions: reflexivity only
     add({"fun": [[N("Int")], N("Int")]}, kind="fun")
     add({"fun": [[N("Int"), N("Str")], N("Bool")]}, kind="fun")
     add({"fun": [[], N(user[0])]}, kind="fun")
     nonnull = list(range(len(terms)))
     # nullable variants
+    opt_of = {}
     for i in nonnull:
         t, tags = terms[i]
         if tags["kind"] in ("class", "generic") and tags.get("cls") != "None":
-            add({"opt": t}, kind="opt", of=i)
+            opt_of[i] = add({"opt": t}, kind="opt", of=i)
+    # names as the checker itself builds them from type annotations in source (`def zz: <text>`): twins of constructed terms
+    # (must answer identically), and unions written in source, which Name::union does not normalise: {A?, B}, {A, B?}, ...
+    annot = ["Int", "Float", "Str", "Bool", "Complex", user[0], user[-1], "Err1"]
+    annot = [a for a in annot if a in idx]
+    for i in list(nonnull):
+        t, tags = terms[i]
+        if tags.get("text"):
+            add({"ann": tags["text"]}, kind="twin", of=i)
+    for a in annot[:4]:
+        add({"ann": a}, kind="twin", of=idx[a])
+        add({"ann": a + "?"}, kind="twin", of=opt_of[idx[a]])
+    k = case["pick"] % len(annot)
+    ring = annot[k:] + annot[:k]
+    for a, b in list(itertools.combinations(ring[:5], 2)):
+        for qa, qb in (("", ""), ("?", ""), ("", "?"), ("?", "?")):
+            ma = opt_of[idx[a]] if qa else idx[a]
+            mb = opt_of[idx[b]] if qb else idx[b]
+            add({"ann": "{%s%s, %s%s}" % (a, qa, b, qb)}, kind="union_ann", members=(ma, mb), nullable=bool(qa or qb))
     # unions of two members
     members = [idx[c] for c in plain if c != "Any"]
     if tier == "quick" or case["size"] == "small":
@@ -267,13 +297,38 @@ class C20:
                 if bool(S[i][j]) != want:
                     return {"what": "%s >= %s is %s but the declared hierarchy says %s" % (ci, cj, bool(S[i][j]), want),
                             "ancestors_of_" + cj: sorted(anc[cj])}
+        # an annotation-built name answers exactly like the constructed name of the same type
+        for u, (t, tags) in enumerate(terms):
+            if tags["kind"] == "twin":
+                o = tags["of"]
+                if S[u] != S[o] or [row[u] for row in S] != [row[o] for row in S]:
+                    j = next(j for j in range(n) if S[u][j] != S[o][j] or S[j][u] != S[j][o])
+                    return {"what": "the name built from the annotation %s answers differently from the constructed name %s (against %s)"
+                                    % (t["ann"], name(o), name(j))}
+                stats.inc("annotation_twins")
+        # generic instantiations of one constructor whose arguments are unrelated in some position are unrelated, whatever the
+        # variance (the statement: a class is not assignable to unrelated classes)
+        gen_terms = [(i, tags) for i, (t, tags) in enumerate(terms) if tags["kind"] == "generic" and tags.get("args")]
+        for i, ti in gen_terms:
+            for j, tj in gen_terms:
+                if i == j or ti["col"] != tj["col"] or len(ti["args"]) != len(tj["args"]):
+                    continue
+                unrelated = [p for p, (x, y) in enumerate(zip(ti["args"], tj["args"])) if not S[x][y] and not S[y][x]]
+                if unrelated:
+                    stats.inc("generic_unrelated_pairs")
+                    if S[i][j]:
+                        p = unrelated[0]
+                        return {"what": "%s >= %s although argument %d (%s vs %s) is unrelated in both directions"
+                                        % (name(i), name(j), p, name(ti["args"][p]), name(tj["args"][p]))}
         # unions
         for u, (t, tags) in enumerate(terms):
-            if tags["kind"] == "union":
+            if tags["kind"] in ("union", "union_ann"):
                 a, b = tags["members"]
                 if not (S[u][a] and S[u][b]):
                     return {"what": "the union %s does not accept its member %s" % (name(u), name(a if not S[u][a] else b))}
-                with_none = none_i is not None and none_i in (a, b)
+                with_none = (none_i is not None and none_i in (a, b)) or tags.get("nullable")
+                if tags["kind"] == "union_ann":
+                    stats.inc("source_unions")
                 for x in range(n):
                     if with_none and x == any_i:
                         continue  # whether None is assignable to Any is not stated by the property
